@@ -29,12 +29,13 @@ func init() {
 	}
 	quick = append(quick, &Job{Pkg: "", Func: "ZZ_C12_Pool", Bounds: "two goroutines Get/Put on the shared byte pool", Race: true})
 	quick = append(quick, &Job{Pkg: "utils/pool/pbuffer", Func: "ZZ_C19_BufferHandOver", Args: []int64{65536, 100}, Bounds: "a pooled bytes.Buffer handed from one goroutine to another through the pool (precise pool model; Put(x) happens before the Get that returns x)", Race: true, PoolPrecise: true})
+	quick = append(quick, &Job{Pkg: "transport", Func: "ZZ_C12_ParseOptions", Bounds: "two concurrent transport.ParseOptions calls (what Connect / Listen do first) over one caller-owned option slice with spare capacity", Race: true})
 	for _, c := range [][]int64{{0}, {1}} {
 		quick = append(quick, &Job{Pkg: "transport/tcp", Func: "ZZ_C12_Options", Args: c, Bounds: "two concurrent Connect/Listen option resolutions (tcp.FromContext) over one caller-owned *tcp.Options value", Race: true})
 	}
 	Specs["C12"] = &Spec{
 		Jobs: jobsBy(quick, thorough), Labels: labelFilter("c12-"),
-		MustReach: []string{"c12-channel-done", "c12-bootstrap-done", "c12-idle-done", "c12-pool-done", "c12-buffered-done", "c12-tcp-options-done"},
+		MustReach: []string{"c12-channel-done", "c12-bootstrap-done", "c12-idle-done", "c12-pool-done", "c12-buffered-done", "c12-tcp-options-done", "c12-parse-options-done"},
 		Bounds: map[string]string{
 			"quick":    "10 pairs of channel operations on synchronous / queue-2 channels; bootstrap scenarios {Shutdown vs starting listener, +Listener.Close, +Connect, +inbound connection}; idle handlers with 2 timer expirations; pool Get/Put",
 			"thorough": "the same pairs on the other channel kind, three triples, bootstrap scenarios with a second listener and combinations",
